@@ -120,6 +120,20 @@ def run_witness(w):
             out2 = _steps(w['lines'])
             bad = 'completes true' not in out2
         return {'output': out, 'violates': bad, 'required': w.get('required')}
+    if kind == 'sock-eof':
+        def still_open():
+            got, eof = _sock(w['lines'])
+            return not eof
+        bad = still_open() and still_open()
+        return {'violates': bad, 'required': w.get('required')}
+    if kind == 'sock-last':
+        def answered():
+            import subprocess
+            r = subprocess.run([replaytool.REPLAY_BIN, 'sock'], input='\n'.join(w['lines']) + '\n', capture_output=True, text=True, timeout=60)
+            recvs = [l[5:] for l in r.stdout.split('\n') if l.startswith('recv ')]
+            return bool(recvs) and recvs[-1] == w['expect_last_recv']
+        bad = not answered() and not answered()
+        return {'violates': bad, 'required': w.get('required')}
     if kind == 'sock-correlation':
         def problem():
             got, eof = _sock(w['lines'])
@@ -326,6 +340,8 @@ def sock_pipelines():
     P.append(('quiet gets then noop', 1048576, [f_set(b'a', b'1', op=0x11), f_key(0x09, b'a'), f_key(0x0d, b'zz'), f_key(0x0d, b'a'), noop]))
     P.append(('touch then noop', 1048576, [hdr(0x1c, key=1, extras=4, body=5) + b'\0\0\0\1k', noop]))
     P.append(('oversized then gets', 1024, [big, f_key(0, b'k'), noop]))
+    big2 = hdr(0x01, key=1, extras=8, body=9000) + b'\0' * 8 + b'k' + b'v' * 8991
+    P.append(('oversized (larger than the 4 KiB read buffer) then gets', 1024, [big2, f_key(0, b'k'), noop]))
     P.append(('counters', 1048576, [f_delta(5, b'c', 1, 10, 0), f_delta(0x15, b'c', 5), f_delta(6, b'c', 100), f_key(0, b'c'), noop]))
     two_mib = b'w' * (2 << 20)
     P.append(('2 MiB item under a 4 MiB limit', 4 << 20, [f_set(b'L', two_mib), f_key(0x0c, b'L') , noop]))
@@ -406,6 +422,26 @@ def gen_sock_faults(pid, f):
         lines = ['send ' + seg.hex(), 'sleep 80', 'conn', 'send ' + b''.join(observer).hex(), 'recv 300']
         w = check(lines, _observer_expect(frames[:n_ok], observer), '%d complete requests followed by a header with a corrupted magic byte, in one segment' % n_ok)
         if w: return w
+    # (1b) the connection is closed IMMEDIATELY after complete requests were sent (FIN queued right behind the data)
+    for c in bounds[1:]:
+        lines = ['send ' + stream[:c].hex(), 'conn', 'sleep 150', 'send ' + b''.join(observer).hex(), 'recv 300']
+        w = check(lines, _observer_expect(completed(c), observer), 'stream cut at byte %d (a frame boundary), connection closed immediately after the send' % c)
+        if w: return w
+    # (1c) abortive reset after complete requests had time to be executed
+    for c in (bounds[2], bounds[-1]):
+        lines = ['send ' + stream[:c].hex(), 'sleep 80', 'rst', 'sleep 80', 'send ' + b''.join(observer).hex(), 'recv 300']
+        w = check(lines, _observer_expect(completed(c), observer), 'stream cut at byte %d, connection RESET 80 ms after the send' % c)
+        if w: return w
+    # (2b) nothing after quit / quitq is executed, even in the same segment
+    for qop in (0x07, 0x17):
+        seg = [f_set(b'a', b'1'), hdr(qop, opaque=9), f_set(b'a', b'2'), f_set(b'b', b'22')]
+        lines = ['send ' + b''.join(seg).hex(), 'sleep 80', 'conn', 'send ' + b''.join(observer).hex(), 'recv 300']
+        w = check(lines, _observer_expect(seg, observer), 'set, %s, two more sets in one segment' % ('quit' if qop == 7 else 'quitq'))
+        if w: return w
+    # (2c) connections reset before the server picked them up (no byte sent) do not stop the accept loop
+    lines = ['rstconn 25', 'sleep 100', 'conn', 'send ' + b''.join(observer).hex(), 'recv 300']
+    w = check(lines, _observer_expect([], observer), '25 connections reset right after connect, before anything was sent')
+    if w: return w
     # (3) many faulted connections in a row (more than the connection limit of the driver, 8), then the observer
     part = stream[:bounds[1] + 30]
     lines = []
@@ -502,6 +538,42 @@ def gen_sock_timed(pid, f):
                     'required': 'the responses equal those of decode -> handler -> encode fed the same requests and clock advances'}
     return None
 gen_sock_timed.last_count = 0
+
+# ------------------------------------------------------------------------------------------------
+# C18 / C16 over TCP: a client that goes silent inside a request is disconnected by the idle timeout (so its slot is
+# returned), whatever kind of request it was inside of; and a client that sends requests and never reads its
+# responses does not keep another connection from being served.  BOUNDED: the scenarios below.
+def gen_sock_timeouts(pid, f):
+    big = hdr(0x01, key=1, extras=8, body=5000) + b'\0' * 8 + b'k' + b'v' * 2000      # 2015 of the 5000 announced body bytes
+    cases = {'inside a header': hdr(0x0a)[:10], 'inside the body of a set': f_set(b'a', b'v' * 100)[:60],
+             'inside an oversized body (limit 1024)': big, 'after complete requests, nothing pending': f_set(b'a', b'1')}
+    gen_sock_timeouts.last_count = 0
+    for name, part in cases.items():
+        lines = ['limit 1024', 'timeout 1', 'send ' + part.hex(), 'sleep 2600', 'recv 300']
+        gen_sock_timeouts.last_count += 1
+        def silent_conn_open():
+            got, eof = _sock(lines)
+            return not eof
+        if silent_conn_open() and silent_conn_open():
+            return {'kind': 'sock-eof', 'lines': lines, 'what': 'receive timeout 1 s; the client goes silent %s: the server has not closed the connection 2.6 s later' % name,
+                    'required': 'a connection that stays silent for longer than the receive timeout is closed (its slot is returned), wherever in a request the client stopped'}
+    return None
+gen_sock_timeouts.last_count = 0
+
+def gen_sock_slow_reader(pid, f):
+    noop = hdr(0x0a, opaque=0x0d0d0d0d)
+    bigv = b'z' * 1000000
+    lines = ['send ' + f_set(b'big', bigv).hex(), 'recv 300', 'sendn 64 ' + f_key(0, b'big').hex(), 'sleep 200', 'conn_keep', 'send ' + noop.hex(), 'recv 1500']
+    want = (hdr(0x0a, opaque=0x0d0d0d0d, magic=0x81)).hex()
+    def answered():
+        import subprocess
+        r = subprocess.run([replaytool.REPLAY_BIN, 'sock'], input='\n'.join(lines) + '\n', capture_output=True, text=True, timeout=60)
+        recvs = [l[5:] for l in r.stdout.split('\n') if l.startswith('recv ')]
+        return bool(recvs) and recvs[-1] == want
+    if not answered() and not answered():
+        return {'kind': 'sock-last', 'lines': lines, 'expect_last_recv': want, 'what': 'one client requests a 1 MB item 64 times and never reads; a second connection sends noop and is not answered within 1.5 s',
+                'required': 'a client that does not read its responses blocks only itself'}
+    return None
 
 # ------------------------------------------------------------------------------------------------
 # C15 (and C01 with "random eviction, limit not reached"): a workload that only stores NEW keys, deletes (cas 0,
@@ -618,6 +690,13 @@ def gen_steps(pid, f, quick=True):
         for park in range(1, n + 1):
             for b in t2s:
                 runs.append((pol, iname, a, park, b, prelude(pol, init) + ['t1 ' + a, 'park %d' % park, 't2 ' + b, 'final get k']))
+    # three clients: thread 1 parked inside a store that has to evict, two more stores that have to evict run concurrently
+    for (job, lines, out) in dries:
+        pol, iname, init, a, t2s = job
+        if pol and iname in ('over-limit', 'same-key-stored-repeatedly') and a.startswith('set k') and 'completes true' in out:
+            n = ([int(l.split()[1]) for l in out if l.startswith('steps ')] or [0])[0]
+            for park in range(1, n + 1):
+                runs.append((pol, iname, a, park, 'set j .. || set m ..', prelude(pol, init) + ['t1 ' + a, 'park %d' % park, 't2par set j %s 0 0' % ('u' * 250), 't2par set m %s 0 0' % ('y' * 250), 'final get k']))
     def conc(r):
         return r, _steps(r[5])
     with ThreadPoolExecutor(8) as ex:
@@ -680,6 +759,9 @@ gen_steps_lin.last_count = 0
 # Bounded stand-ins registered per property in specs/properties.json (`bounded_twins`): for functions that no contract
 # within reach covers.  Labelled bounded in the evidence; never counted as proved.
 BOUNDED_TWINS = {
+    'slow_reader': {'gen': gen_sock_slow_reader, 'fn': 'the write path across connections (no contract relates two connections)',
+                    'bound': 'one scenario over TCP: a client requests a 1 MB item 64 times without reading; a second connection must get its noop answered within 1.5 s',
+                    'what': 'a client that does not read its responses blocks only itself'},
     'steps_lin': {'gen': gen_steps_lin, 'fn': 'RandomPolicy and MemcStore under interference (the interference contracts of unit conc cover MemoryStore only)',
                   'bound': 'two threads, get/set/delete/flush on one key, 4 initial states x 2 policies, thread 1 parked before each of its Cache-layer / clock calls (about 1000 schedules)',
                   'what': 'the concurrent outcome equals one of the two sequential orders and no two acknowledged mutations carry the same CAS'},
